@@ -456,6 +456,13 @@ void dyn_array_reserve(DynArray* arr, int64_t new_capacity) {
     if (new_capacity <= arr->capacity) {
         return;
     }
+
+    /* Struct array that has not seen a push yet: element size unknown, nothing to allocate.
+     * (realloc(ptr, 0) would free the block and look like an allocation failure.) */
+    if (arr->elem_size == 0) {
+        arr->capacity = new_capacity;
+        return;
+    }
     
     void* new_data = realloc(arr->data, new_capacity * arr->elem_size);
     if (new_data == NULL) {
